@@ -111,7 +111,7 @@ func c15Call(w *c15World, op string, v int, idx int) string {
 		return "ok:" + string(b)
 	}
 	find := func(router routers.Router) string {
-		method := []string{"GET", "POST"}[v]
+		method := []string{"GET", "POST"}[v%2]
 		route, pp, err := router.FindRoute(mkReq(method, "/items/7", ""))
 		if err != nil {
 			return "err"
@@ -125,12 +125,12 @@ func c15Call(w *c15World, op string, v int, idx int) string {
 	case "find_legacy":
 		return find(w.legacy)
 	case "vreq_params":
-		return validateReq(w.mux, mkReq("GET", []string{"/items/5?q=1,2", "/items/5?q=x"}[v], ""))
+		return validateReq(w.mux, mkReq("GET", []string{"/items/5?q=1,2", "/items/5?q=x"}[v%2], ""))
 	case "vreq_body_pattern":
-		return validateReq(w.mux, mkReq("POST", "/items/5", []string{fmt.Sprintf(`{"id":1,"tags":["c%dpab"]}`, idx), `{"id":1,"tags":["zz"]}`}[v]))
+		return validateReq(w.mux, mkReq("POST", "/items/5", []string{fmt.Sprintf(`{"id":1,"tags":["c%dpab"]}`, idx), `{"id":1,"tags":["zz"]}`, fmt.Sprintf(`{"id":1,"tags":["C%dPAB"]}`, idx)}[v]))
 	case "vreq_body_pattern_customregex":
 		// the same schema and pattern string, validated by a caller that configured its own (case-insensitive) engine
-		req := mkReq("POST", "/items/5", []string{fmt.Sprintf(`{"id":1,"tags":["C%dPAB"]}`, idx), `{"id":1,"tags":["zz"]}`}[v])
+		req := mkReq("POST", "/items/5", []string{fmt.Sprintf(`{"id":1,"tags":["C%dPAB"]}`, idx), `{"id":1,"tags":["zz"]}`, fmt.Sprintf(`{"id":1,"tags":["c%dpab"]}`, idx)}[v])
 		route, pp, err := w.mux.FindRoute(req)
 		if err != nil {
 			return "noroute"
@@ -143,16 +143,16 @@ func c15Call(w *c15World, op string, v int, idx int) string {
 		}
 		return "ok"
 	case "vreq_body_unique":
-		return validateReq(w.mux, mkReq("POST", "/items/5", []string{fmt.Sprintf(`{"id":1,"tags":["c%dpa","c%dpa"]}`, idx, idx), fmt.Sprintf(`{"id":2,"tags":["c%dpa","c%dpb"]}`, idx, idx)}[v]))
+		return validateReq(w.mux, mkReq("POST", "/items/5", []string{fmt.Sprintf(`{"id":1,"tags":["c%dpa","c%dpa"]}`, idx, idx), fmt.Sprintf(`{"id":2,"tags":["c%dpa","c%dpb"]}`, idx, idx)}[v%2]))
 	case "vreq_body_defaults":
-		return validateReq(w.mux, mkReq("PUT", "/items/5", []string{`{}`, `{"o":{"z":1}}`}[v]))
+		return validateReq(w.mux, mkReq("PUT", "/items/5", []string{`{}`, `{"o":{"z":1}}`}[v%2]))
 	case "vresp":
 		req := mkReq("GET", "/items/5", "")
 		route, pp, err := w.mux.FindRoute(req)
 		if err != nil {
 			return "noroute"
 		}
-		body := []string{`{"id":1}`, `{"id":"x"}`}[v]
+		body := []string{`{"id":1}`, `{"id":"x"}`}[v%2]
 		err = openapi3filter.ValidateResponse(context.Background(), &openapi3filter.ResponseValidationInput{
 			RequestValidationInput: &openapi3filter.RequestValidationInput{Request: req, PathParams: pp, Route: route},
 			Status:                 200, Header: http.Header{"Content-Type": []string{"application/json"}},
@@ -163,7 +163,7 @@ func c15Call(w *c15World, op string, v int, idx int) string {
 		return "ok"
 	case "visitjson":
 		s := w.doc.Components.Schemas["Item"].Value
-		val := []any{map[string]any{"id": 1.0}, map[string]any{"id": "x"}}[v]
+		val := []any{map[string]any{"id": 1.0}, map[string]any{"id": "x"}}[v%2]
 		if err := s.VisitJSON(val); err != nil {
 			return "reject"
 		}
@@ -202,13 +202,31 @@ func c15Run(c *Case) []any {
 	type run struct {
 		Op    string `json:"op"`
 		Alone []any  `json:"alone"`
+		// Verdicts[v] = ok / reject / other for variant v run alone; conc entries are "v<k>=<result>"
+		Verdicts []any `json:"verdicts"`
 		Conc  []any  `json:"conc"`
 	}
 	runs := make([]*run, len(tc.Ops))
+	norm := func(v string, idx int) string {
+		return strings.ReplaceAll(strings.ReplaceAll(v, fmt.Sprintf("c%dp", idx), "cNp"), fmt.Sprintf("C%dP", idx), "CNP")
+	}
+	class := func(v string) string {
+		switch {
+		case strings.HasPrefix(v, "ok"):
+			return "ok"
+		case strings.HasPrefix(v, "reject"):
+			return "reject"
+		}
+		return "other"
+	}
 	for i, op := range tc.Ops {
-		a0 := strings.ReplaceAll(c15Call(alone, op, 0, c.Idx*2+1), fmt.Sprintf("c%dp", c.Idx*2+1), "cNp")
-		a1 := strings.ReplaceAll(c15Call(alone, op, 1, c.Idx*2+1), fmt.Sprintf("c%dp", c.Idx*2+1), "cNp")
-		runs[i] = &run{Op: op, Alone: []any{a0, a1}}
+		r := &run{Op: op}
+		for v := 0; v < 3; v++ {
+			a := c15Call(alone, op, v, c.Idx*2+1)
+			r.Alone = append(r.Alone, fmt.Sprintf("v%d=%s", v, norm(a, c.Idx*2+1)))
+			r.Verdicts = append(r.Verdicts, class(a))
+		}
+		runs[i] = r
 	}
 	w := c15NewWorld(c.Idx * 2)
 	var mu sync.Mutex
@@ -234,8 +252,9 @@ func c15Run(c *Case) []any {
 				<-start
 				local := map[string]bool{}
 				for it := 0; it < iters; it++ {
-					v := c15Call(w, op, (g+it)%2, c.Idx*2)
-					local[strings.ReplaceAll(strings.ReplaceAll(v, fmt.Sprintf("c%dp", c.Idx*2), "cNp"), fmt.Sprintf("C%dP", c.Idx*2), "CNP")] = true
+					vi := (g + it) % 3
+					v := c15Call(w, op, vi, c.Idx*2)
+					local[fmt.Sprintf("v%d=%s", vi, norm(v, c.Idx*2))] = true
 				}
 				mu.Lock()
 				for k := range local {
